@@ -47,8 +47,16 @@ func genC15(t *rapid.T) interface{} {
 	switch rapid.IntRange(0, 4).Draw(t, "site") {
 	case 0, 1:
 		sc.Bars[rapid.IntRange(0, nb-1).Draw(t, "fbar")].FillErrAt = k
+		if nb >= 2 && rapid.IntRange(0, 3).Draw(t, "secondfault") == 0 {
+			// a second bar fails on the same call number: with both added before the
+			// same frame, two errors arise in one render cycle
+			sc.Bars[rapid.IntRange(0, nb-1).Draw(t, "fbar2")].FillErrAt = k
+		}
 	case 2:
 		sc.Bars[rapid.IntRange(0, nb-1).Draw(t, "ebar")].ExtErrAt = k
+		if nb >= 2 && rapid.IntRange(0, 3).Draw(t, "secondextfault") == 0 {
+			sc.Bars[rapid.IntRange(0, nb-1).Draw(t, "ebar2")].ExtErrAt = k
+		}
 	case 3:
 		sc.OutErrAt = k
 		sc.OutShort = rapid.Bool().Draw(t, "short")
@@ -142,6 +150,15 @@ func runC15(ci interface{}) Result {
 		return r
 	}
 	r.Classes = append(r.Classes, "fault:"+site)
+	nfired := 0
+	for _, e := range tr.Events {
+		if e.Point == "client.fillerr" || e.Point == "client.exterr" {
+			nfired++
+		}
+	}
+	if nfired >= 2 {
+		r.Classes = append(r.Classes, "two-faults-fired")
+	}
 	// exactly once, and nothing else. Two faults of the same cycle (a second bar
 	// failing too) may each be the one reported.
 	lines := strings.Split(strings.TrimSuffix(debug, "\n"), "\n")
